@@ -23,11 +23,12 @@ from __future__ import annotations
 import dataclasses
 import importlib
 import json
-import pkgutil
+import os
 import sys
 import types
 from collections import Counter
 from itertools import combinations, product
+from typing import TypeVar
 
 import ipv8
 from ipv8.messaging.interfaces.udp.endpoint import UDPv4Address
@@ -342,9 +343,9 @@ def _dc_type_source(f, style: str) -> str:  # noqa: ANN001
         name = f[1] if isinstance(f[1], str) else f[1].__name__
         return name if not f[0].endswith("list") else (f"[{name}]" if style == "alt" else f"list[{name}]")
     t = _dc_type(f, style, {})
-    if isinstance(t, type):
-        return t.__name__
-    return repr(t).replace("~", "") if not hasattr(t, "__name__") or "[" in repr(t) else f'type_from_format("{f}")'
+    if isinstance(t, TypeVar):
+        return f'type_from_format("{f}")'
+    return t.__name__ if isinstance(t, type) else repr(t)
 
 
 def build_dc(spec: Spec, style: str, kids: dict) -> type:
@@ -411,13 +412,18 @@ _NODES: list = []
 def library_classes() -> dict:
     """Every concrete VariablePayload subclass defined in ipv8 (tests excluded), by 'module.Class'."""
     if not _LIB:
-        for m in pkgutil.walk_packages(ipv8.__path__, "ipv8."):
-            if ".test" in m.name or ".lan_addresses." in m.name or m.name.endswith("__main__"):
-                continue
-            try:
-                importlib.import_module(m.name)
-            except Exception:  # noqa: BLE001, S112 - optional dependencies (netifaces, WinDLL)
-                continue
+        root = os.path.dirname(ipv8.__file__)
+        for path, dirs, files in sorted(os.walk(root)):
+            dirs[:] = sorted(d for d in dirs if d not in ("test", "lan_addresses", "scripts", "__pycache__"))
+            for fn in sorted(files):
+                if not fn.endswith(".py") or fn == "__main__.py":
+                    continue
+                rel = os.path.relpath(os.path.join(path, fn), os.path.dirname(root))[:-3]
+                name = rel.replace(os.sep, ".").removesuffix(".__init__")
+                try:
+                    importlib.import_module(name)
+                except Exception:  # noqa: BLE001, S112 - optional dependencies
+                    continue
         seen: list = []
 
         def walk(c: type) -> None:
@@ -658,7 +664,7 @@ def evaluate(defn: dict, seed: int, dev: int, wide: bool, only_call: int | None 
             if v[0] == "ref-rejects":
                 st["reference_rejects_but_form_accepts"] += 1
                 continue
-            exc = got.get(v[0], ("",))[0]
+            exc = got[v[0]][0] if v[0] in ("construct", "pack", "unpack") else ""
             if form == "compiled":
                 compiled_bad = (v[0], exc)
             elif form == "dataclass" and (compiled_bad == (v[0], exc) or
